@@ -54,7 +54,16 @@ func c23ConcExec(c c23ConcCase, x *pbt.Ctx) error {
 	if err != nil {
 		return fmt.Errorf("HARNESS: cannot start node: %v", err)
 	}
-	defer n.Stop() // not Close: submitters may still be inside the pool when the case ends on an error
+	// Close (which lets the database go) only once every submitter has returned; on an early error
+	// return they may still be inside the pool, then the node is only stopped
+	joined := false
+	defer func() {
+		if joined {
+			n.Close()
+		} else {
+			n.Stop()
+		}
+	}()
 	var raws [][]byte
 	for i := 1; i < len(w.Blocks); i++ {
 		for _, tx := range w.Blocks[i].Block.Transactions[1:] {
@@ -109,6 +118,7 @@ func c23ConcExec(c c23ConcCase, x *pbt.Ctx) error {
 		return hangError("delivering the blocks while transactions are submitted", dump)
 	}
 	wg.Wait()
+	joined = true
 	if panicked != nil {
 		return panicked
 	}
@@ -147,5 +157,5 @@ func c23ConcExec(c c23ConcCase, x *pbt.Ctx) error {
 
 func TestC23Concurrent(t *testing.T) {
 	pbt.Run(t, "C23", "block trees of 6-16 blocks with 1-3 extra spends per block; 1-3 goroutines submit copies of all their transactions over and over (Chain.ValidateTx) while another delivers the blocks in order; after all calls have returned no pooled transaction may be in a main-chain block; scheduler-chosen interleaving; non-trivial = more submissions than transactions and at least one transaction confirmed; distinct = case JSON",
-		pbt.Options{Sub: "concurrent", Journal: true, Checks: pbt.Per(400, 8000)}, c23ConcGen, c23ConcExec)
+		pbt.Options{Sub: "concurrent", Journal: true, Checks: pbt.Per(400, 6000)}, c23ConcGen, c23ConcExec)
 }
